@@ -14,16 +14,17 @@ pub const R4I: &str = "R4i:from_document(ImDocument)";
 pub const R4J: &str = "R4j:ImDocument::into_deserializer";
 pub const R4K: &str = "R4k:DocumentMut::into_deserializer";
 pub const R7C: &str = "R7c:toml_edit::Value::into_deserializer";
+pub const R4V: &str = "R4v:ImDocument item as toml_edit::Value::into_deserializer";
 pub const R5: &str = "R5:toml::Value::try_into";
 pub const R6: &str = "R6:toml::Table::try_into";
 pub const R7A: &str = "R7a:toml::de::ValueDeserializer";
 pub const R7B: &str = "R7b:toml_edit::de::ValueDeserializer";
 
 /// document routes
-pub const DOC_ROUTES: &[&str] = &[R1, R2, R3, R4, R4I, R4J, R4K, R5, R6];
+pub const DOC_ROUTES: &[&str] = &[R1, R2, R3, R4, R4I, R4J, R4K, R4V, R5, R6];
 /// routes that have the source text and therefore spans
 pub const TEXT_ROUTES: &[&str] = &[R1, R2, R3, R4I, R4J];
-pub const ALL_ROUTES: &[&str] = &[R1, R2, R3, R4, R4I, R4J, R4K, R5, R6, R7A, R7B, R7C];
+pub const ALL_ROUTES: &[&str] = &[R1, R2, R3, R4, R4I, R4J, R4K, R4V, R5, R6, R7A, R7B, R7C];
 
 pub fn has_text(route: &str) -> bool {
     TEXT_ROUTES.contains(&route)
@@ -83,6 +84,13 @@ pub fn run_route_g<D: serde::de::DeserializeOwned>(route: &str, text: &str) -> R
         R7C => {
             use serde::de::IntoDeserializer;
             let v = text.parse::<toml_edit::Value>().map_err(|e| e_tomlerr(e, true))?;
+            D::deserialize(v.into_deserializer()).map_err(|e| e_edit(e, false))
+        }
+        R4V => {
+            // a value taken out of a parsed document keeps its spans but has no source text attached
+            use serde::de::IntoDeserializer;
+            let doc = toml_edit::ImDocument::parse(text.to_string()).map_err(|e| e_tomlerr(e, true))?;
+            let v = doc.as_item().clone().into_value().map_err(|_| RouteErr { message: "HARNESS: root is not a value".into(), span: None, rendered: String::new(), pre_peer: true, obj: std::rc::Rc::new(String::new()) })?;
             D::deserialize(v.into_deserializer()).map_err(|e| e_edit(e, false))
         }
         R5 => {
